@@ -153,8 +153,9 @@ PROPS.update({
   "assumptions": ["status messages are compared modulo the U+FFFD sanitising the standard transport applies; a delivery equal to the handler's own status is accepted where the reference loses details"],
  },
  "C04": {
-  "fact_files": ["inprocgrpc/in_process.go", "httpgrpc/client.go"], "trusted_base": _IS_TB + ["the script's context is a harness-owned context.Context whose Done/Err the env actor controls: deadline expiry is as deterministic as cancellation; real timers are not modelled"],
+  "fact_files": ["inprocgrpc/in_process.go", "httpgrpc/client.go", "httpgrpc/server.go"], "trusted_base": _IS_TB + ["the script's context is a harness-owned context.Context whose Done/Err the env actor controls: deadline expiry is as deterministic as cancellation; real timers are not modelled"],
   "partial": ["wall-clock promptness (timers firing) is runtime: represented as 'the operation's own context branch is enabled, no step of the peer needed' and measured only as hang detection",
+              "HTTP server side: that the handler's context ends when the caller goes away is net/http's connection watch (runtime, checked on a loopback connection by cancelReachesIdleHandlerOverTheWire); the model carries the part that is logic — on single-request methods the library has read the request to its end once the handler holds its message (C04_http_server_single_request_read_to_end), on client-streaming methods it need not have (C04_http_server_client_stream_may_leave_request_unread, known finding C04-F7)",
               "HTTP: C04_http_recv_after_cancel / _complete_records_ctx_status / _cancel_unblocks are over the HttpClientStream model (HC scripts); the trailer path of doHttpCall holds rMu while it drains the reply body, so a RecvMsg issued in that window waits for the transport to end the body — outside the model (assumed immediate)"],
   "level_text": "Proof: cancellation/deadline is an environment action enabled in every state of the InprocStream system, so the theorems cover every placement of the instant: once the context is done with reason r, EVERY completion of a pending or later RecvMsg is status(Canceled|DeadlineExceeded) — never nil, a message, io.EOF or a non-status error — unless the client already holds the call's real final error (C04_after_cancel_receive_is_status); every pending operation of either side has its context branch enabled without the peer (C04_cancel_unblocks); the handler's context is done and its RecvMsg yields only the context error (C04_handler_ctx_cancelled); nothing is delivered to either side afterwards (C04_no_delivery_after_cancel); a handler returning its context error is seen as the matching code (C04_handler_ctx_error_maps). Tie: scripts with env.cancel / env.expire at random points accepted by the explorer; oracle on both transports; the unary cancel race is pinned with the Invoke schedule points.",
   "level_note": _IS_NOTE,
